@@ -6,6 +6,8 @@ child list has parent_ == nullptr. Decided: every member function of tree::objec
 Given std::list's address stability (trusted), preservation by every operation gives I after
 every history. Not decided: agreement of the traversals with a reference model.
 """
+import re
+
 from engine import facts as F
 from engine import load
 from engine import lrules as L
@@ -35,6 +37,8 @@ def main(rep, tier, only):
     rep.rule("TREE-P3", "release / pop_back / pop_front null the parent of the node they hand out", floor=3)
     rep.rule("TREE-P4", "insert links the inserted node to this (children_.insert(...)->parent_ = this) and every "
                         "other insertion entry point goes through it", floor=3)
+    rep.rule("TREE-PRE", "pre_order's step: descend exactly when the current node has a child (first child becomes current, the others are pushed "
+                         "in reverse), otherwise end when no position is left, otherwise continue with the top of the stack", floor=1)
     rep.rule("TREE-ID", "child_position identifies the child by address among the parent's children (a node is its identity, not its value)", floor=2)
     rep.rule("TREE-C1", "constructors initialise parent_ with nullptr and children_ empty or through copy_children / move_children", floor=5)
     by_name = {}
@@ -184,6 +188,58 @@ def main(rep, tier, only):
                 rep.ok("TREE-P4", k2, F.primary_site(fn), F.describe(fn), how="delegates-to-insert")
             else:
                 rep.fail("TREE-P4", k2, F.primary_site(fn), F.describe(fn), why="adds a child without going through insert (which links it)")
+    # ---- TREE-PRE: pre-order iterator step (the traversal context::set and the tree algorithms rely on)
+    seen_pre = set()
+    for fn in db.functions:
+        name = F.fn_name(fn)
+        if not name.endswith("pre_order::iterator::increment") or not name.startswith("fcppt::container::tree::"):
+            continue
+        if F.primary_site(fn) in seen_pre:
+            continue
+        seen_pre.add(F.primary_site(fn))
+        u = fn["_unit"]
+        defs = T.const_local_defs(u, fn)
+        ifs = [x for x in (fn.get("body") or {}).get("ch", []) if x.get("k") == "if"]
+        why = None
+        if len(ifs) != 1:
+            why = "the step is not one three-way decision (has children / stack empty / otherwise)"
+        else:
+            top = ifs[0]
+            c = T.show(T.norm(u, top.get("cond"), defs)).replace(" ", "")
+            m = re.match(r"^(?:!([\w.()]+)\.empty\(\)|\(([\w.()]+)\.size\(\)(?:>0|!=0)\))$", c)
+            x = (m.group(1) or m.group(2)) if m else None
+            is_cur = False
+            if x is not None:
+                if "dereference()" in x:
+                    is_cur = True
+                else:
+                    for v in F.walk(fn.get("body"), into_lambdas=False):
+                        if v.get("k") == "var" and v.get("name") == x and v.get("init") is not None and "dereference()" in T.show(T.norm(u, v["init"])):
+                            is_cur = True
+            if not is_cur:
+                why = "the iterator descends under `%s`; it must descend exactly when the current node has a child (`!current.empty()`): a node with children would otherwise be treated as a leaf" % T.show(T.norm(u, top.get("cond"), defs))
+            thn = top.get("then")
+            asg = [T.show(T.norm(u, x, defs)).replace(" ", "") for x in F.walk(thn, into_lambdas=False) if x.get("k") in ("assign", "call") and "current_" in T.show(T.norm(u, x.get("l") or x.get("recv") or x, defs))[:40]]
+            if not why and not any("front()" in a for a in asg):
+                why = "after descending the current node is not the first child (%s)" % asg
+            rf = [x for x in F.walk(thn, into_lambdas=False) if x.get("k") == "range_for"]
+            if not why:
+                rng = T.show(T.norm(u, rf[0].get("range"), defs)).replace(" ", "") if len(rf) == 1 else ""
+                if not ("rbegin()" in rng and "prev(" in rng and "rend()" in rng):
+                    why = "the remaining children are not pushed in reverse order without the first one (range %s)" % rng
+                elif not any((T.callee_qn(u, x) or "").endswith("::push") for x in F.walk(rf[0].get("body")) if x.get("k") == "call"):
+                    why = "the remaining children are not pushed onto the position stack"
+            els = top.get("else")
+            if not why:
+                if els is None or els.get("k") != "if" or "positions_.empty()" not in T.show(T.norm(u, els.get("cond"), defs)).replace("this.", ""):
+                    why = "a leaf does not test whether positions are left"
+                else:
+                    fin = [T.show(T.norm(u, x, defs)) for x in F.walk(els.get("then"), into_lambdas=False) if x.get("k") in ("assign", "call")]
+                    calls = [(T.callee_qn(u, x) or "").split("::")[-1] for x in F.walk(els.get("else"), into_lambdas=False) if x.get("k") == "call"]
+                    if "top" not in calls or "pop" not in calls or calls.index("top") > calls.index("pop"):
+                        why = "a leaf does not continue with the top of the position stack (top before pop): %s" % calls
+        (rep.fail if why else rep.ok)("TREE-PRE", "pre_order::iterator::increment", F.primary_site(fn), F.describe(fn)[:160],
+                                      **({"why": why} if why else {"how": "children? first child + push rest reversed : stack empty? end : top/pop"}))
     # ---- TREE-ID: child_position finds the child by identity (address), not by value
     seen = set()
     for fn in db.fns("fcppt::container::tree::child_position"):
